@@ -437,8 +437,9 @@ ebpps_sketch<T,A> ebpps_sketch<T,A>::deserialize(const void* bytes, size_t size,
   ptr += copy_from_mem(ptr, wt_max);
   double rho;
   ptr += copy_from_mem(ptr, rho);
+  check_non_empty_state(n, cumulative_wt, wt_max, rho);
 
-  auto pair = ebpps_sample<T, A>::deserialize(ptr, end_ptr - ptr, sd, allocator);
+  auto pair = ebpps_sample<T, A>::deserialize(ptr, end_ptr - ptr, k, sd, allocator);
   ebpps_sample<T, A> sample = pair.first;
   ptr += pair.second;
 
@@ -456,6 +457,7 @@ ebpps_sketch<T,A> ebpps_sketch<T,A>::deserialize(std::istream& is, const SerDe& 
   const uint8_t family = read<uint8_t>(is);
   const uint8_t flags = read<uint8_t>(is);
   const uint32_t k = read<uint32_t>(is);
+  if (!is.good()) throw std::runtime_error("error reading from std::istream");
 
   check_k(k);
   check_family_and_serialization_version(family, ser_ver);
@@ -470,8 +472,10 @@ ebpps_sketch<T,A> ebpps_sketch<T,A>::deserialize(std::istream& is, const SerDe& 
   const double cumulative_wt = read<double>(is);
   const double wt_max = read<double>(is);
   const double rho = read<double>(is);
+  if (!is.good()) throw std::runtime_error("error reading from std::istream");
+  check_non_empty_state(n, cumulative_wt, wt_max, rho);
 
-  auto sample = ebpps_sample<T,A>::deserialize(is, sd, allocator);
+  auto sample = ebpps_sample<T,A>::deserialize(is, k, sd, allocator);
 
   if (sample.has_partial_item() != bool(flags & HAS_PARTIAL_ITEM_MASK))
     throw std::runtime_error("sketch fails internal consistency check");
@@ -522,6 +526,21 @@ void ebpps_sketch<T, A>::check_preamble_longs(uint8_t preamble_longs, uint8_t fl
         + std::to_string(PREAMBLE_LONGS_FULL)
         + " for a non-empty sketch. Found: " + std::to_string(preamble_longs));
     }
+  }
+}
+
+// update() and merge() divide by these values and turn the quotients into item counts
+template <typename T, typename A>
+void ebpps_sketch<T, A>::check_non_empty_state(uint64_t n, double cumulative_wt, double wt_max, double rho)
+{
+  if (n == 0
+      || !(cumulative_wt > 0.0) || std::isinf(cumulative_wt)
+      || !(wt_max > 0.0) || std::isinf(wt_max)
+      || !(rho > 0.0) || std::isinf(rho)) {
+    throw std::invalid_argument("Possible corruption: a non-empty sketch must have n > 0 and positive finite "
+      "cumulative weight, maximum weight and rho. Found: n = " + std::to_string(n)
+      + ", cumulative weight = " + std::to_string(cumulative_wt)
+      + ", max weight = " + std::to_string(wt_max) + ", rho = " + std::to_string(rho));
   }
 }
 
